@@ -1571,6 +1571,17 @@ void op_end(long r0, long r1) {
   TRACE("  ------ T%d ends   %s -> (%ld,%ld)\n", me->id, opname(e.op), r0, r1);
   me->cur_ev = -1;
   me->nseen = 0;
+  g.livelock_rounds = 0; // a completed operation is progress: LIVELOCK is about a thread stuck inside one operation / wait
+}
+// The harness has made progress that the spin detector cannot see (an iteration of a loop of its own that only reads:
+// `for (k...) contains(k)` on an empty container repeats the same loads from the same call site without any write in
+// between and was taken for a busy-wait loop: false LIVELOCK in the hash map sweep).  A wait inside one library call
+// is still found: nothing resets the detector there.
+void progress() {
+  VThread* me = tl_self;
+  if (!g.in_child || !me) return;
+  me->nseen = 0;
+  g.livelock_rounds = 0;
 }
 int history_size() { return g_nhist; }
 void history_reset() {
